@@ -89,6 +89,7 @@ structure WF (O : Oracle) (d : Doc) (oid : List Nat) (h : HashAlg) (es : Option 
   outerLen : d.outerAlg.length ≤ 81920
   sigLen : d.sig.length < 81920
   total : (enc d).length < 2 ^ 32
+  algSame : d.innerAlg = d.outerAlg   -- RFC 5280 §5.1.1.2 / §5.1.2.2: `signature` MUST equal `signatureAlgorithm` (the reader now checks it)
   algOk : O.algOid (seqOf d.outerAlg) = some oid
   hashOk : lookupHash oid = some h
   issuerOk : O.rdnOk (seqOf d.issuer) = true
